@@ -15,6 +15,8 @@ Runtime / environment (VCs on the real bodies):
                                     caught; TemplatesNotFound iff none loads or the list is empty; dispatch on str/Undefined/Template/iterable
 Compiler (emission contracts on the real visitors):
   C05.emit.include[...]   C05.emit.import / from_import / dump_local_context
+  C05.emit.exports[names] pop_assign_tracking: context.exported_vars receives exactly the public (no leading "_") names of a
+                          top-level assignment, in the `add` and the `update` form; nothing from loop / block frames
 Parser (real bodies over the abstract token stream of C01):
   C05.parser.*            include defaults to `with context`, import/from to `without context`; the suffix sets with_context
 """
@@ -151,6 +153,26 @@ def _context_problems():
             exp = sorted(k for k in vars(outer2.module) if not k.startswith("_"))
             if exp != ["keep"]:
                 problems.append(f"a name rebound by an import must leave the export set: {exp}")
+        # exports = exactly the PUBLIC top-level names, whatever the shape of the assignment (single, tuple, nested tuple, in an if;
+        # nothing from a loop / block / macro body), seen through the module object and through an importing template
+        mods = {"one": ("{% set a = 1 %}{% set _p = 2 %}", ["a"]), "pair": ("{% set a, _p = 1, 2 %}", ["a"]), "pair_pub": ("{% set a, b = 1, 2 %}", ["a", "b"]),
+                "triple": ("{% set a, b, _p = 1, 2, 3 %}", ["a", "b"]), "nested": ("{% set (a, _p), b = (1, 2), 3 %}", ["a", "b"]),
+                "five": ("{% set _q, c, a, _p, b = 1, 2, 3, 4, 5 %}", ["a", "b", "c"]), "privates": ("{% set _p, _q = 1, 2 %}", []),
+                "in_if": ("{% if true %}{% set a, b, _p = 1, 2, 3 %}{% endif %}", ["a", "b"]), "in_loop": ("{% for i in [1] %}{% set a, b, _p = 1, 2, 3 %}{% endfor %}", []),
+                "in_block": ("{% block x %}{% set a, b, _p = 1, 2, 3 %}{% endblock %}", []), "setblock": ("{% set a %}x{% endset %}{% set _p %}y{% endset %}", ["a"]),
+                "macros": ("{% macro pub() %}x{% endmacro %}{% macro _priv() %}y{% endmacro %}", ["pub"]),
+                "upper": ("{% set A, _p = 1, 2 %}", ["A"]), "upper3": ("{% set _q, B, _p = 1, 2, 3 %}", ["B"]), "mixed": ("{% set A, _p, b = 1, 2, 3 %}", ["A", "b"])}
+        e4 = _env({k: v[0] for k, v in mods.items()}, is_async)
+        cands = ["A", "B", "a", "b", "c", "pub", "_p", "_q", "_priv", "i"]
+        for name, (src, want) in mods.items():
+            probe = "{% import '" + name + "' as m %}" + "".join("{% if m." + c + " is defined %}" + c + " {% endif %}" for c in cands)
+            seen = sorted(_render(e4, e4.from_string(probe)).split())
+            if seen != want:
+                problems.append(f"async={is_async} import of {src!r}: the importing template sees {seen}, expected {want}")
+            if not is_async:
+                exp = sorted(k for k in vars(e4.get_template(name).module) if k in cands)
+                if exp != want:
+                    problems.append(f"module of {src!r} exposes {exp}, expected {want}")
     problems += native_api()
     return problems
 
@@ -1536,6 +1558,127 @@ EMIT_TASKS = (
 for _t in EMIT_TASKS:
     if "from_import" in _t.name:
         _t.bound_text = "shape bound: FromImport.names is this concrete list (names and aliases symbolic)"
+
+
+# ---------------------------------------------------------------- exports: pop_assign_tracking
+
+# (upper-case names sort before "_", lower-case ones after it: both orders of public/private in sorted() are covered)
+EXPORT_NAME_SETS = [("a",), ("_p",), ("a", "_p"), ("A", "_p"), ("a", "b"), ("_p", "_q"), ("a", "b", "_p"), ("_p", "a", "_q"), ("B", "_p", "_q"), ("A", "_p", "b"),
+                    ("c", "_p", "a", "_q", "b")]
+BLOCK_FRAME, LOOP_FRAME = z3.Bool("frame.block_frame"), z3.Bool("frame.loop_frame")
+
+
+class ExportsTask(Task):
+    """C05.emit.exports[<names>]: the real CodeGenerator.pop_assign_tracking(frame) on the set of names one assignment statement
+    stored (frame flags symbolic).  Obligation (from the statement: a module exposes exactly the PUBLIC TOP-LEVEL assignments):
+      * at the top level (not in a loop / block frame) every name is stored in context.vars and context.exported_vars receives
+        exactly the names that do not start with "_" - in the single-name `add` form and in the multi-name `update` form alike;
+      * in a loop or block frame the names go to _loop_vars / _block_vars and nothing is exported; otherwise nothing is emitted."""
+    kind = "emission"
+
+    def __init__(self, names):
+        self.names = tuple(names)
+        self.prop = "C05"
+        self.name = f"C05.emit.exports[{','.join(names)}]"
+        self.bound_text = "the set of names stored by one statement is this concrete set (8 sets: all mixes of public/private up to 5 names); frame flags symbolic"
+
+    def replay(self, w):
+        return native_context(w)
+
+    def schemas(self):
+        from pyvc.engine import Interp
+        from pyvc import extract
+        I = Interp()
+        emit.install(I)
+
+        def sorted_spec(I_, s, args, kwargs, node):
+            items = I_.iter_concrete(s, args[0], node)
+            if kwargs or not all(isinstance(x, str) for x in items):
+                raise Unsupported("sorted() of non-constant names", node)
+            return [(s, s.alloc(HList(items=sorted(items))))]
+
+        I.specs[("fn", id(sorted))] = sorted_spec
+        configure_from(I)  # map(repr, names)
+        st = State()
+        g = emit.Gen(st)
+        # the tracking layer pushed by push_assign_tracking(), filled by visit_Name(store) with the statement's names
+        st.get(g.gen).fields["_assign_stack"] = st.alloc(HList(items=[frozenset(self.names)]), initial=True)
+        clo = I.closure_of_function(extract.resolve("jinja2.compiler:CodeGenerator.pop_assign_tracking"))
+        out = []
+        for s, v in I.call_closure(st, clo, [g.gen, g.frame], {}):
+            sc = emit.Schema(list(s.ghost.get("out", [])), list(s.pc), list(s.notes), "raise" if isinstance(v, Raised) else "return", s)
+            sc.value = v.exc if isinstance(v, Raised) else v
+            sc.gen = g
+            out.append(sc)
+        return out
+
+    def check(self, sc, tree, ph):
+        top, blk, lp = decide(sc, TOP), decide(sc, BLOCK_FRAME), decide(sc, LOOP_FRAME)
+        stores = {"context.vars": {}, "_loop_vars": {}, "_block_vars": {}}
+        exported, fails = [], []
+
+        def ident_of(n):
+            return ref_alias(sc, ph[n.id][1]) if isinstance(n, ast.Name) and n.id in ph and ph[n.id][0] == "ident" else None
+
+        for s in tree.body:
+            v = s.value if isinstance(s, ast.Expr) else None
+            if isinstance(s, ast.Assign) and len(s.targets) == 1 and isinstance(s.targets[0], ast.Subscript) and emit.call_name(s.targets[0].value) in stores \
+                    and isinstance(s.targets[0].slice, ast.Constant):
+                stores[emit.call_name(s.targets[0].value)][s.targets[0].slice.value] = ident_of(s.value)
+            elif isinstance(v, ast.Call) and emit.call_name(v) in tuple(k + ".update" for k in stores) and len(v.args) == 1 and isinstance(v.args[0], ast.Dict):
+                d = stores[emit.call_name(v)[:-len(".update")]]
+                for k, x in zip(v.args[0].keys, v.args[0].values):
+                    d[getattr(k, "value", None)] = ident_of(x)
+            elif isinstance(v, ast.Call) and emit.call_name(v) == "context.exported_vars.add" and len(v.args) == 1 and isinstance(v.args[0], ast.Constant):
+                exported.append(v.args[0].value)
+            elif isinstance(v, ast.Call) and emit.call_name(v) == "context.exported_vars.update" and len(v.args) == 1 and isinstance(v.args[0], ast.Tuple):
+                exported += [getattr(e, "value", None) for e in v.args[0].elts]
+            else:
+                fails.append(f"unexpected statement: {ast.unparse(s)[:80]}")
+        names = sorted(self.names)
+        public = [n for n in names if not n.startswith("_")]
+        if lp is None or blk is None:
+            return fails + ["path does not decide the frame kind"] if any(stores.values()) or exported else fails
+        where = "_loop_vars" if lp else "_block_vars" if blk else "context.vars" if top else None
+        if where is None and top is None and not any(stores.values()):
+            where = None
+        for k, d in stores.items():
+            want = names if k == where else []
+            if sorted(d) != want or any(d[n] != n for n in d):
+                fails.append(f"{k} receives {sorted(d)} (bound to {[d[n] for n in sorted(d)]}), expected {want} each bound to its own local")
+        want_exp = public if where == "context.vars" else []
+        if sorted(exported) != want_exp or len(set(exported)) != len(exported):
+            fails.append(f"context.exported_vars receives {sorted(exported)}; a module must export exactly the public top-level names {want_exp} "
+                         f"of the assignment {names} (frame: toplevel={top} loop={lp} block={blk})")
+        return fails
+
+    def run(self, tier, seed):
+        try:
+            scs = self.schemas()
+        except Unsupported as ex:
+            return [Res(self.name + ".engine", "unknown", "pyvc-emit", 0, f"unsupported: {ex}", self.kind)]
+        res = []
+        for i, sc in enumerate(scs):
+            fails = []
+            if sc.outcome == "raise":
+                fails.append(f"pop_assign_tracking raises {sc.value!r}")
+            else:
+                txt, ph = sc.texts()[0]
+                try:
+                    fails += self.check(sc, emit.parse_stmts(txt), ph)
+                except SyntaxError as ex:
+                    fails.append(f"emitted text does not parse: {txt!r}")
+            if fails:
+                res.append(Res(f"{self.name}#p{i}", "refuted", "pyvc-emit", 0, f"under {[str(c)[:40] for c in sc.pc][:6]}: " + "; ".join(fails[:2]), self.kind,
+                               witness={"names": list(self.names), "schema": sc.describe()[:300]}))
+            else:
+                res.append(Res(f"{self.name}#p{i}", "discharged", "pyvc-emit", 0, "", self.kind))
+        if len(scs) < 3:
+            res.append(Res(self.name + ".paths", "error", "pyvc-emit", 0, f"only {len(scs)} paths", self.kind))
+        return res
+
+
+EMIT_TASKS = EMIT_TASKS + [ExportsTask(ns) for ns in EXPORT_NAME_SETS]
 
 TASKS = RUNTIME_TASKS + EMIT_TASKS
 
